@@ -45,6 +45,31 @@ def with_empty_constant(rng, i):
     return case
 
 
+def with_unread_constants(rng, i):
+    """normal-form model with additional constants that no operator reads (a frozen variable kept in the file, constants exported as
+    graph outputs): one small one, or two DISTINCT buffers holding identical contents of more than 4 KiB (replicated layers)"""
+    case = fp.gen_case(rng, i, const_output=0.5)
+    m = pl.read(case.mb)
+    r = np.random.RandomState(rng.randrange(2 ** 31))
+    if rng.random() < 0.5:
+        payloads = [("twin_a", r.randn(rng.choice([1100, 2048])).astype(np.float32))]
+        payloads.append(("twin_b", payloads[0][1].copy()))
+        case.info["tags"].add("identical_large_constants")
+    else:
+        payloads = [("kept_const", r.randn(rng.randint(1, 9)).astype(np.float32))]
+        case.info["tags"].add("unread_constant")
+    for name, arr in payloads:
+        b = s.BufferT()
+        b.data = np.frombuffer(arr.tobytes(), dtype=np.uint8)
+        m.buffers.append(b)
+        t = s.TensorT()
+        t.name, t.shape, t.type, t.buffer, t.quantization = name.encode(), [int(arr.size)], s.TensorType.FLOAT32, len(m.buffers) - 1, None
+        m.subgraphs[0].tensors.append(t)
+    from tensorflow.lite.tools import flatbuffer_utils
+    case.mb = bytes(flatbuffer_utils.convert_object_to_bytearray(m))
+    return case
+
+
 def run(ctx):
     ctx.rule = ("quantized models produced from generated models x recipes (plus models carrying a zero-length constant in front of the "
                 "others), pushed through the large-model path by lowering its threshold with the verification hook; raw flatbuffer "
@@ -72,7 +97,7 @@ def explore_cases(ctx, drv, interp):
     for i in range(n):
         if ctx.left() < 25:
             break
-        case = with_empty_constant(rng, i) if i % 4 == 1 else fp.gen_case(rng, i)
+        case = with_empty_constant(rng, i) if i % 4 == 1 else (with_unread_constants(rng, i) if i % 4 == 3 else fp.gen_case(rng, i))
         if i % 5 == 3:
             # the INPUT model already keeps its constants outside the flatbuffer (written by the check's own two-pass writer)
             case.mb = pl.to_external_form(case.mb)
